@@ -218,9 +218,17 @@ func init() {
 	noop := func(ex *Exec, fr *Frame, callee *ssa.Function, args []Val, st *State, k CallCont) {
 		k(st, ex.resultVal(st, callee.Signature, "lib"), false)
 	}
+	externModels["(*sync.Mutex).Lock"] = func(ex *Exec, fr *Frame, callee *ssa.Function, args []Val, st *State, k CallCont) {
+		ex.monitorEvent(fr, st, args[0], true)
+		k(st, Val{}, false)
+	}
+	externModels["(*sync.Mutex).Unlock"] = func(ex *Exec, fr *Frame, callee *ssa.Function, args []Val, st *State, k CallCont) {
+		ex.monitorEvent(fr, st, args[0], false)
+		k(st, Val{}, false)
+	}
 	// mutexes have no state a contract can mention; mutual exclusion itself is an assumption about sync
 	for _, n := range []string{"fmt.Println", "fmt.Printf", "fmt.Print", "(*sync.WaitGroup).Add", "(*sync.WaitGroup).Done", "(*sync.WaitGroup).Wait",
-		"(*sync.Mutex).Lock", "(*sync.Mutex).Unlock", "(*sync.RWMutex).Lock", "(*sync.RWMutex).Unlock", "(*sync.RWMutex).RLock", "(*sync.RWMutex).RUnlock"} {
+		"(*sync.RWMutex).Lock", "(*sync.RWMutex).Unlock", "(*sync.RWMutex).RLock", "(*sync.RWMutex).RUnlock"} {
 		externModels[n] = noop
 	}
 }
